@@ -256,6 +256,45 @@ theorem C30_environ_consistent (scheme : Str) (q : Request) :
     | (intro n v h; exact env_fold_header q.headers _ n v h)
 
 
+/-- the keys `buildEnviron` sets for every request -/
+def baseEnvKeys : List Str :=
+  ["wsgi.url_scheme", "wsgi.input", "REQUEST_METHOD", "SERVER_PROTOCOL", "SCRIPT_NAME", "PATH_INFO", "QUERY_STRING",
+   "CONTENT_TYPE", "CONTENT_LENGTH"].map String.toList
+
+/-- **C30, the environment speaks of the current request only** (all request sequences on a connection): after any
+requests `qs` and then `q` on one keep-alive connection, the environment the connection's Responder holds — the one
+the application is called with for `q` — is `buildEnviron scheme q`: a function of `q` and the connection's scheme,
+whatever `qs` were; and every key in it is one of the nine per-request keys or the `HTTP_` key of a header that `q`
+itself carries, with that header's value.  Nothing of an earlier request is carried over. -/
+theorem C30_environ_per_request (scheme : Str) (qs : List Request) (q : Request) :
+    serveConnection scheme (qs ++ [q]) = some (buildEnviron scheme q)
+    ∧ ∀ k v, odGet (buildEnviron scheme q) k = some v →
+        k ∈ baseEnvKeys ∨ ∃ n t, (n, t) ∈ q.headers ∧ k = envKey n ∧ v = .str t := by
+  constructor
+  · unfold serveConnection
+    rw [List.foldl_append]
+    rfl
+  · intro k v h
+    simp only [buildEnviron] at h
+    rw [show (fun (env : List (Str × EVal)) (kv : Str × Str) => odSet env ("HTTP_".toList ++ upper (replaceC '-' '_' kv.1)) (EVal.str kv.2))
+          = (fun env kv => odSet env (envKey kv.1) (.str kv.2)) from rfl] at h
+    rcases env_fold_only _ _ k v h with hb | hh
+    · left
+      exact odGet_mem_keys _ k v hb
+    · exact Or.inr hh
+
+/-- non-vacuity: a POST with a token header followed by a bare GET: the second environment has no `HTTP_X_TOKEN` -/
+example :
+    let q1 : Request := { method := "POST".toList, url := "/a".toList, version := (1, 1), path := "/a".toList, scheme := [],
+                          hostname := none, port := none, query := [], fragment := [],
+                          headers := [("x-token".toList, "s".toList)], chunked := false, body := [1], parms := [],
+                          trails := [], jsoned := none, persisted := true }
+    let q2 : Request := { q1 with method := "GET".toList, headers := [], body := [] }
+    odGet (buildEnviron "http".toList q1) (envKey "x-token".toList) = some (.str "s".toList)
+    ∧ serveConnection "http".toList [q1, q2] = some (buildEnviron "http".toList q2)
+    ∧ odGet (buildEnviron "http".toList q2) (envKey "x-token".toList) = none := by
+  decide +kernel
+
 /-- **C30, the server's scheme** (every way of constructing a `Valet` / `Porter`): the scheme the constructor
 settles on is `https` with TLS and default port 443, or `http` without TLS and default port 80 — never empty, never
 anything else; a caller-supplied servant dictates which (its type), and without one it is TLS exactly for
